@@ -1,11 +1,11 @@
 \* as Conn_c05.cfg plus the step clauses as temporal formulas (thorough tier)
-\* server requiring TLS with a remote peer.  The step clauses are asserted
+\* server requiring TLS with a remote / a local peer.  The step clauses are asserted
 \* inside Next (see Do / Auth in Conn.tla).
 CONSTANTS
   Service = "imap"
   Users = {"u1"}
   Admins = {}
-  Envs = {"plain", "tlsremote"}
+  Envs = {"plain", "tlsremote", "tlslocal"}
   Cmds <- ImapCmds
   Forms = {"LOGIN", "PLAIN", "LOGINMECH"}
   Kinds = {"right", "wrongpw"}
